@@ -137,6 +137,15 @@ protected:
 
    const char *const m_name;
    const char *const m_desc;
+
+#ifdef UNCRUSTIFY_VERIF
+public:
+   //! verification hook: was the value of this option ever read via operator()?
+   bool verifWasRead() const { return(m_verif_read); }
+
+protected:
+   mutable bool m_verif_read = false;
+#endif
 };
 
 //-----------------------------------------------------------------------------
@@ -190,7 +199,11 @@ public:
    bool read(const char *s) override;
    std::string str() const override;
 
+#ifdef UNCRUSTIFY_VERIF
+   T operator()() const { this->m_verif_read = true; return(m_val); }
+#else
    T operator()() const { return(m_val); }
+#endif
    Option &operator=(T val) { m_val = val; return(*this); }
 
 protected:
